@@ -18,9 +18,29 @@ BIN = {
     4: ("eq", lambda a, b: a.eq(b)),
     5: ("ge", lambda a, b: a.ge(b)),
     6: ("ne", lambda a, b: a.ne(b)),
+    7: ("floordiv", lambda a, b: a // b),
+    8: ("mod", lambda a, b: a % b),
+    9: ("le", lambda a, b: a.le(b)),
+    10: ("gt", lambda a, b: a.gt(b)),
+    11: ("and", lambda a, b: a & b),
+    12: ("or", lambda a, b: a | b),
+    13: ("xor", lambda a, b: a ^ b),
+    14: ("pow", lambda a, b: a ** b),
 }
-BIN_INT = {0: operator.add, 1: operator.sub, 2: operator.mul, 3: lambda a, b: int(a < b), 4: lambda a, b: int(a == b), 5: lambda a, b: int(a >= b), 6: lambda a, b: int(a != b)}
-UN = {0: operator.neg, 1: operator.abs, 2: operator.pos}
+BIN_INT = {0: operator.add, 1: operator.sub, 2: operator.mul, 3: lambda a, b: int(a < b), 4: lambda a, b: int(a == b), 5: lambda a, b: int(a >= b), 6: lambda a, b: int(a != b),
+           7: operator.floordiv, 8: operator.mod, 9: lambda a, b: int(a <= b), 10: lambda a, b: int(a > b), 11: operator.and_, 12: operator.or_, 13: operator.xor, 14: lambda a, b: _safe_pow(a, b)}
+
+
+def _safe_pow(a, b):
+    if b < 0 or b > 6:
+        raise ZeroDivisionError("exponent outside the modelled domain")  # rejected by the generators like a zero divisor
+    return a ** b
+
+
+BIN_PY = {"add": operator.add, "sub": operator.sub, "mul": operator.mul, "floordiv": operator.floordiv, "mod": operator.mod, "and": operator.and_, "or": operator.or_, "xor": operator.xor, "pow": operator.pow}
+# unary: the same callable works on an R (builds a roller) and on a RollOutcome (inside umap)
+UN = {0: operator.neg, 1: operator.abs, 2: operator.pos, 3: operator.invert, 4: lambda x: x.is_even(), 5: lambda x: x.is_odd()}
+UN_INT = {0: operator.neg, 1: operator.abs, 2: operator.pos, 3: operator.invert, 4: lambda v: int(v % 2 == 0), 5: lambda v: int(v % 2 != 0)}
 
 
 def map_fn(code, arg):
@@ -131,13 +151,13 @@ def build(tree):
         variant = (len(repr(tree)) + tree[1]) % 3
         l, r = tree[2], tree[3]
         name = BIN[tree[1]][0]
-        if variant == 0 or name in ("lt", "eq", "ge", "ne") and variant == 1:
-            if name in ("add", "sub", "mul"):
+        if variant == 0 or name in ("lt", "eq", "ge", "ne", "le", "gt") and variant == 1:
+            if name in BIN_PY:
                 if l[0] == "val":
-                    return {"add": operator.add, "sub": operator.sub, "mul": operator.mul}[name](l[1], build(r))  # reflected
+                    return BIN_PY[name](l[1], build(r))  # reflected: scalar on the left
                 if r[0] == "val":
-                    return {"add": operator.add, "sub": operator.sub, "mul": operator.mul}[name](build(l), r[1])
-                return {"add": operator.add, "sub": operator.sub, "mul": operator.mul}[name](build(l), build(r))
+                    return BIN_PY[name](build(l), r[1])
+                return BIN_PY[name](build(l), build(r))
             return getattr(build(l), name)(r[1] if r[0] == "val" else build(r))
         return build(l).map(BIN[tree[1]][1], build(r))
     if t == "un":
@@ -145,6 +165,14 @@ def build(tree):
         if variant == 0:
             return UN[tree[1]](build(tree[2]))  # -r, abs(r), +r
         return build(tree[2]).umap(UN[tree[1]])
+    if t == "unb":
+        # a scalar combined with each RollOutcome inside umap: RollOutcome's own (reflected) operators / shorthands
+        name, k, side = BIN[tree[1]][0], tree[2], tree[3]
+        if name in BIN_PY:
+            f = (lambda o: BIN_PY[name](o, k)) if side == 0 else (lambda o: BIN_PY[name](k, o))
+        else:
+            f = lambda o: getattr(o, name)(k)  # noqa: E731
+        return build(tree[4]).umap(f)
     if t == "filt":
         p = pred_fn(tree[1], tree[2])
         if len(tree[3]) == 1 and len(repr(tree)) % 2:
@@ -219,6 +247,8 @@ def tokens(tree):
         return out
     if t == "subst":
         return ["9", str(tree[1]), str(tree[2])] + tokens(tree[3]) + ["1" if tree[4] else "0", str(tree[5])] + tokens(tree[6])
+    if t == "unb":
+        return ["11", str(tree[1]), str(tree[2]), str(tree[3])] + tokens(tree[4])
     if t == "substmap":
         return ["10", str(tree[1]), str(tree[2]), str(tree[3]), str(tree[4]), str(tree[5])] + tokens(tree[6])
     raise KeyError(t)
@@ -311,8 +341,11 @@ def denote(tree, budget=None):
         f = BIN_INT[tree[1]]
         return push(prod([push(denote(tree[2]), lambda k: (sum(k),)), push(denote(tree[3]), lambda k: (sum(k),))]), lambda k: (f(k[0], k[1]),))
     if t == "un":
-        f = UN[tree[1]]
+        f = UN_INT[tree[1]]
         return push(denote(tree[2]), lambda k: (f(sum(k)),))
+    if t == "unb":
+        f, k, side = BIN_INT[tree[1]], tree[2], tree[3]
+        return push(denote(tree[4]), lambda v: (f(sum(v), k) if side == 0 else f(k, sum(v)),))
     if t == "filt":
         p = pred_fn(tree[1], tree[2])
         return push(prod([denote(s) for s in tree[3]]), lambda k: tuple(v for v in k if p(v)))
@@ -388,8 +421,20 @@ def rand_tree(rnd, size):
     if r < 0.32:
         return ["rep", rnd.choice([0, 1, 2, 2, 3]), rand_tree(rnd, size - 2)]
     if r < 0.5:
-        return ["bin", rnd.choice(list(BIN)), rand_tree(rnd, (size - 1) // 2), rand_tree(rnd, (size - 1) // 2)]
+        op = rnd.choice(list(BIN))
+        right = rand_tree(rnd, (size - 1) // 2)
+        if BIN[op][0] == "pow":
+            right = ["val", rnd.randint(0, 3)]  # negative exponents leave the integers
+        elif BIN[op][0] in ("floordiv", "mod") and rnd.random() < 0.5:
+            right = ["val", rnd.choice([-3, -2, -1, 1, 2, 3])]  # otherwise: kept only if the divisor is never 0 (denote raises)
+        return ["bin", op, rand_tree(rnd, (size - 1) // 2), right]
     if r < 0.58:
+        if rnd.random() < 0.4:
+            op = rnd.choice(list(BIN))
+            name = BIN[op][0]
+            side = rnd.randint(0, 1) if name in BIN_PY else 0  # the comparison shorthands have no reflected form
+            k = rnd.randint(0, 3) if name == "pow" else rnd.choice([-3, -2, -1, 1, 2, 3]) if name in ("floordiv", "mod") and side == 0 else rnd.randint(-2, 4)
+            return ["unb", op, k, side, rand_tree(rnd, size - 1)]
         return ["un", rnd.choice(list(UN)), rand_tree(rnd, size - 1)]
     if r < 0.7:
         n = rnd.randint(1, 2)
@@ -423,6 +468,8 @@ def fix_selections(rnd, tree):
         return ["bin", tree[1], fix_selections(rnd, tree[2]), fix_selections(rnd, tree[3])]
     if t == "un":
         return ["un", tree[1], fix_selections(rnd, tree[2])]
+    if t == "unb":
+        return tree[:4] + [fix_selections(rnd, tree[4])]
     if t == "filt":
         return ["filt", tree[1], tree[2], [fix_selections(rnd, s) for s in tree[3]]]
     if t == "subst":
@@ -453,7 +500,7 @@ def unit_counts(tree):
             for x in tree]
 
 
-KINDS = ("val", "valh", "valp", "pool", "rep", "bin", "un", "filt", "sel", "subst", "substmap")
+KINDS = ("val", "valh", "valp", "pool", "rep", "bin", "un", "unb", "filt", "sel", "subst", "substmap")
 
 
 def count_paths(tree):
